@@ -34,6 +34,18 @@ theorem phi_le (P : Env Val) (s : St Val) : phi P s ≤ s.calls + 1 := by
   unfold sib; split <;> simp
 @[simp] theorem sib_dyn (P : Env Val) (b : Bool) (s : St Val) : (sib P b s).dyn = s.dyn := by
   unfold sib; split <;> simp
+@[simp] theorem sib_dynObj (P : Env Val) (b : Bool) (s : St Val) : (sib P b s).dynObj = s.dynObj := by
+  unfold sib; split <;> simp
+@[simp] theorem listening_sib (P : Env Val) (b : Bool) (s : St Val) : listening P (sib P b s) = listening P s := by
+  simp [listening]
+@[simp] theorem listening_popCache (P : Env Val) (s : St Val) : listening P (popCache P s) = listening P s := by
+  simp [listening]
+@[simp] theorem mkNote_sib (P : Env Val) (b : Bool) (s : St Val) (o : Old Val) (v : Val) :
+    mkNote P (sib P b s) o v = mkNote P s o v := by
+  simp [mkNote]
+@[simp] theorem mkNote_popCache (P : Env Val) (s : St Val) (o : Old Val) (v : Val) :
+    mkNote P (popCache P s) o v = mkNote P s o v := by
+  simp [mkNote]
 @[simp] theorem sib_notes (P : Env Val) (b : Bool) (s : St Val) : (sib P b s).notes = s.notes := by
   unfold sib; split <;> simp
 @[simp] theorem sib_false (P : Env Val) (s : St Val) : sib P false s = s := by
@@ -185,6 +197,8 @@ def QuietStep (P : Env Val) (s : St Val) : Step → Prop
   | .read => True
   | .attach => True
   | .detach => True
+  | .attachObj => True
+  | .detachObj => True
   | .construct _ => False
   | .copy => False
 
@@ -201,6 +215,8 @@ theorem step_quiet_phi (P : Env Val) (g : Heap → Val) (hp : PureGetter P.G g) 
   | read => exact readProp_phi P g hp hc hu s
   | attach => exact Nat.le_refl _
   | detach => exact Nat.le_refl _
+  | attachObj => exact Nat.le_refl _
+  | detachObj => exact Nat.le_refl _
   | construct ws => exact absurd hq (by simp [QuietStep])
   | copy => exact absurd hq (by simp [QuietStep])
 
@@ -225,6 +241,8 @@ instance (P : Env Val) (s : St Val) : (st : Step) → Decidable (QuietStep P s s
   | .read => isTrue trivial
   | .attach => isTrue trivial
   | .detach => isTrue trivial
+  | .attachObj => isTrue trivial
+  | .detachObj => isTrue trivial
   | .construct _ => isFalse (fun h => h)
   | .copy => isFalse (fun h => h)
 
@@ -241,8 +259,8 @@ instance (P : Env Val) (s : St Val) (steps : List Step) : Decidable (Quiet P s s
 /-! ## notifications -/
 
 theorem tpc_notes (P : Env Val) (g : Heap → Val) (hp : PureGetter P.G g) (s : St Val) (old : Old Val)
-    (hi : Inv P g s) (hL : (P.staticL || s.dyn) = true) :
-    (tpc P s old).notes = s.notes ++ [⟨old, g s.heap, P.staticL, s.dyn⟩] := by
+    (hi : Inv P g s) (hL : listening P s = true) :
+    (tpc P s old).notes = s.notes ++ [mkNote P s old (g s.heap)] := by
   unfold tpc
   rw [if_pos hL, readProp_ok P g hp s hi]
   simp
@@ -267,11 +285,11 @@ theorem legacyNotify_eq_tpc (P : Env Val) (s s0 : St Val)
   · rfl
 
 theorem dispatchFire_notes (P : Env Val) (g : Heap → Val) (hp : PureGetter P.G g) (s0 : St Val)
-    (m : Mutation) (hw : NoEntryIfUncached P s0) (hL : (P.staticL || s0.dyn) = true)
+    (m : Mutation) (hw : NoEntryIfUncached P s0) (hL : listening P s0 = true)
     (hn : P.legacy = true → ∀ v, s0.cache = some v → P.isUndef v = false) :
     (dispatchFire P s0 m).notes =
-      s0.notes ++ [⟨if P.legacy then popOld P s0 else popOld P (sib P (P.sibPre m) s0),
-                    g s0.heap, P.staticL, s0.dyn⟩] := by
+      s0.notes ++ [mkNote P s0 (if P.legacy then popOld P s0 else popOld P (sib P (P.sibPre m) s0))
+                    (g s0.heap)] := by
   unfold dispatchFire
   split
   · rename_i hl
